@@ -28,7 +28,7 @@ def _worker(directory, inherited, ops, pid_, counter, logpath, barrier, seed):
                 counter.value += 1
                 s = counter.value
             out.append({'ev': 'call', 'seq': s, 'c': pid_, 'op': op['op'], 'a': a})
-            if 'v' in a and op['op'] in ('set', 'add'):
+            if 'v' in a and op['op'] in ('set', 'add', 'push'):
                 a['sz'] = vm.size(a['v'])
             ret = api.call(cache, op['op'], dict(a), op.get('form', 0))
             with counter.get_lock():
@@ -58,7 +58,7 @@ def run_free(cfg, init_ops, program, seed=0, tid=1):
         init_rec = []
         for op in init_ops:
             a = dict(op['a'])
-            if 'v' in a and op['op'] in ('set', 'add'):
+            if 'v' in a and op['op'] in ('set', 'add', 'push'):
                 a['sz'] = vm.size(a['v'])
             api.call(parent, op['op'], dict(a), 0)
             init_rec.append({'op': op['op'], 'a': a})
